@@ -40,7 +40,9 @@ Queries == << <<"cholesky", "lower", "LLt", TRUE>>, <<"cholesky", "upper", "RtR"
               \* sampling from an object whose diagonalization has been queried before (the sampler then prefers the cached diagonalization)
               <<"sample_after_diag", "k1", "cov", TRUE>>, <<"sample_after_diag", "k2", "cov", TRUE>>,
               \* contour-integral sampling with an active (rank-2 pivoted-Cholesky) preconditioner: operators K + D only
-              <<"sample_ciq_precond", "k1", "cov", FALSE>>, <<"sample_ciq_precond", "k2", "cov", FALSE>> >>
+              <<"sample_ciq_precond", "k1", "cov", FALSE>>, <<"sample_ciq_precond", "k2", "cov", FALSE>>,
+              \* the root left in the cache by a Lanczos inverse root from ONE supplied start vector (a Krylov-space root: compression relation)
+              <<"root_after_inv_vecs1", "none", "RRt", FALSE>> >>
 \* thresholds: max_cholesky_size in {0, default} (sizes on both sides of it), max_root_decomposition_size in {2, default},
 \* fast covar_root_decomposition on / off
 Thresholds == { [max_chol |-> mc, max_root |-> mr, fast_root |-> fr] : mc \in {0, 800}, mr \in {2, 100}, fr \in BOOLEAN }
